@@ -57,6 +57,17 @@ def appOrderOk : GC → Bool
   | p :: q :: _ => !(p.1.isEmpty && !containsNL q.1)
   | _ => true
 
+/-- an `assert … ; …` node -/
+def Cst.isAsrt : Cst → Bool
+  | .kw false .. => true
+  | _ => false
+
+def Items.noCmt : Items → Bool
+  | .nil => true
+  | .cmt .. => false
+  | .elem _ _ rest => rest.noCmt
+  | .bind _ _ _ _ _ _ _ _ _ rest => rest.noCmt
+
 mutual
 /-- A comment that is attached to the previous item (same row) while comments are still pending in
     `before` overtakes them. `orderOk` says this does not happen: `pending` = "`before` holds a
@@ -67,13 +78,23 @@ def Cst.orderOk : Cst → Bool
   | .set _ _ its _ => its.orderOk .set .none false false
   | .paren its _ => its.orderOk .paren .none false false
   | .app f cs _ a => f.orderOk && appOrderOk cs && a.orderOk
+  | .kw _ _ _ h _ _ _ _ b => h.orderOk && b.orderOk
+  | .sel e _ _ _ _ => e.orderOk
+  | .selOr e _ _ _ _ _ _ _ d => e.orderOk && d.orderOk
+  | .lam _ _ _ _ _ b => b.orderOk
+  | .un _ _ _ e => e.orderOk
+  | .bin l _ _ _ _ _ r => l.orderOk && r.orderOk
+/-- An `assert` renders its trailing trivia (`after`) between its `;` and its body: a comment that the
+    enclosing sequence attaches to an `assert` item (any comment after it: top level, parentheses) comes
+    out in front of the body (`C03.cex_comment_after_assert`). The value of a binding is rendered without
+    its trailing trivia, which are written after the binding's `;`: no condition there. -/
 def Items.orderOk : Items → Mode → Prev → Bool → Bool → Bool
   | .nil, _, _, _, _ => true
   | .cmt g _ rest, m, prev, pending, hasItem =>
     let inl := prevAllowsInline m prev && !containsNL g && hasItem
     if inl then !pending && rest.orderOk m .cmt pending hasItem
     else rest.orderOk m .cmt true hasItem
-  | .elem _ c rest, m, _, _, _ => c.orderOk && rest.orderOk m .item false true
+  | .elem _ c rest, m, _, _, _ => c.orderOk && (!c.isAsrt || rest.noCmt) && rest.orderOk m .item false true
   | .bind _ _ _ _ _ _ v _ _ rest, m, _, _, _ => v.orderOk && rest.orderOk m .item false true
 end
 
@@ -88,13 +109,19 @@ def Cst.orderOkSeq : Cst → Bool
   | .set _ _ its _ => its.orderOkSeq .set .none false false
   | .paren its _ => its.orderOkSeq .paren .none false false
   | .app f _ _ a => f.orderOkSeq && a.orderOkSeq
+  | .kw _ _ _ h _ _ _ _ b => h.orderOkSeq && b.orderOkSeq
+  | .sel e _ _ _ _ => e.orderOkSeq
+  | .selOr e _ _ _ _ _ _ _ d => e.orderOkSeq && d.orderOkSeq
+  | .lam _ _ _ _ _ b => b.orderOkSeq
+  | .un _ _ _ e => e.orderOkSeq
+  | .bin l _ _ _ _ _ r => l.orderOkSeq && r.orderOkSeq
 def Items.orderOkSeq : Items → Mode → Prev → Bool → Bool → Bool
   | .nil, _, _, _, _ => true
   | .cmt g _ rest, m, prev, pending, hasItem =>
     let inl := prevAllowsInline m prev && !containsNL g && hasItem
     if inl then !pending && rest.orderOkSeq m .cmt pending hasItem
     else rest.orderOkSeq m .cmt true hasItem
-  | .elem _ c rest, m, _, _, _ => c.orderOkSeq && rest.orderOkSeq m .item false true
+  | .elem _ c rest, m, _, _, _ => c.orderOkSeq && (!c.isAsrt || rest.noCmt) && rest.orderOkSeq m .item false true
   | .bind _ _ _ _ _ _ v _ _ rest, m, _, _, _ => v.orderOkSeq && rest.orderOkSeq m .item false true
 end
 
@@ -140,6 +167,13 @@ def Expr.effAfter : Expr → Bool → List Trivia
   | .set _ _ _ _ _ a, na => if na then [] else a
   | .paren _ _ _ _ _ _ a, na => if na then [] else a
   | .app _ _ _ _ _ a, na => if na then [] else a
+  | .wth _ _ _ _ _ _ a, na => if na then [] else a
+  | .asrt _ _ _ _ _ a, na => if na then [] else a
+  | .sel _ _ _ _ _ a, na => if na then [] else a
+  | .selOr _ _ _ _ _ _ _ _ a, na => if na then [] else a
+  | .lam _ _ _ _ _ _ a, na => if na then [] else a
+  | .un _ _ _ _ _ a, na => if na then [] else a
+  | .bin _ _ _ _ _ _ a, na => if na then [] else a
 
 def closedB (ts : List Trivia) : Bool :=
   match ts.getLast? with
@@ -159,8 +193,16 @@ def Expr.inlineCleanB : Expr → Bool
   | .list v ml _ _ _ => (ml || allFlatB v) && allInlineCleanB v
   | .set v ml _ _ _ _ => (ml || allFlatB v) && allInlineCleanB v
   | .binding _ v _ _ _ => v.inlineCleanB
-  | .paren .. => false     -- parentheses / calls: outside the spacing theorem so far (`File.basic`)
-  | .app .. => false
+  | .paren v lg _ _ _ _ _ => ((Layout.fromGap lg).onNewline || v.before.isEmpty) && v.inlineCleanB
+  | .app n x g _ _ _ => ((Layout.fromGap g).onNewline || x.before.isEmpty) && n.inlineCleanB && x.inlineCleanB
+  | .wth env body _ _ _ _ _ => env.inlineCleanB && body.inlineCleanB
+  | .asrt .. => false     -- `assert`: outside the spacing theorem so far (`File.basic`)
+  | .sel e _ _ _ _ _ => e.inlineCleanB
+  | .selOr e _ _ _ d _ _ _ _ => e.inlineCleanB && d.inlineCleanB
+  | .lam _ _ _ _ body _ _ => body.inlineCleanB
+  | .un _ e _ _ _ _ => e.inlineCleanB
+  -- at most one blank line in front of / after a binary operator (`cex_blank_lines_around_operator`)
+  | .bin _ l r ogl rgl _ _ => decide (ogl ≤ 2) && decide (rgl ≤ 2) && l.inlineCleanB && r.inlineCleanB
 def allInlineCleanB : List Expr → Bool
   | [] => true
   | e :: rest => e.inlineCleanB && allInlineCleanB rest
@@ -174,14 +216,25 @@ def allBeforeEmpty : List Expr → Bool
 
 mutual
 /-- THE EXCLUSION of the spacing theorem, in its final form: in every container written on one
-    line, no item has leading trivia (i.e. no comment stands in front of an item) -/
+    line, no item has leading trivia (i.e. no comment stands in front of an item); the value of a
+    parenthesis that follows `(` on the same line has no leading trivia (no comment between `(` and
+    it: `cex_comment_after_open_paren`); the argument of a call that follows the function on the
+    same line has no leading trivia (no comment touching the function: `cex_comment_touching_function`) -/
 def Expr.beforeFlatB : Expr → Bool
   | .leaf .. => true
   | .list v ml _ _ _ => (ml || allBeforeEmpty v) && allBeforeFlatB v
   | .set v ml _ _ _ _ => (ml || allBeforeEmpty v) && allBeforeFlatB v
   | .binding _ v _ _ _ => v.beforeFlatB
-  | .paren .. => false
-  | .app .. => false
+  | .paren v lg _ _ _ _ _ => ((Layout.fromGap lg).onNewline || v.before.isEmpty) && v.beforeFlatB
+  | .app n x g _ _ _ => ((Layout.fromGap g).onNewline || x.before.isEmpty) && n.beforeFlatB && x.beforeFlatB
+  | .wth env body _ _ _ _ _ => env.beforeFlatB && body.beforeFlatB
+  | .asrt .. => false     -- `assert`: outside the spacing theorem so far (`File.basic`)
+  | .sel e _ _ _ _ _ => e.beforeFlatB
+  | .selOr e _ _ _ d _ _ _ _ => e.beforeFlatB && d.beforeFlatB
+  | .lam _ _ _ _ body _ _ => body.beforeFlatB
+  | .un _ e _ _ _ _ => e.beforeFlatB
+  -- at most one blank line in front of / after a binary operator (`cex_blank_lines_around_operator`)
+  | .bin _ l r ogl rgl _ _ => decide (ogl ≤ 2) && decide (rgl ≤ 2) && l.beforeFlatB && r.beforeFlatB
 def allBeforeFlatB : List Expr → Bool
   | [] => true
   | e :: rest => e.beforeFlatB && allBeforeFlatB rest
@@ -200,6 +253,13 @@ def Expr.beforeFlatG : Expr → Bool
   | .binding _ v _ _ _ => v.beforeFlatG
   | .paren v _ _ _ _ _ _ => v.beforeFlatG
   | .app n x _ _ _ _ => n.beforeFlatG && x.beforeFlatG
+  | .wth env body _ _ _ _ _ => env.beforeFlatG && body.beforeFlatG
+  | .asrt .. => false     -- `assert`: outside the spacing theorem so far (`File.basic`)
+  | .sel e _ _ _ _ _ => e.beforeFlatG
+  | .selOr e _ _ _ d _ _ _ _ => e.beforeFlatG && d.beforeFlatG
+  | .lam _ _ _ _ body _ _ => body.beforeFlatG
+  | .un _ e _ _ _ _ => e.beforeFlatG
+  | .bin _ l r _ _ _ _ => l.beforeFlatG && r.beforeFlatG
 def allBeforeFlatG : List Expr → Bool
   | [] => true
   | e :: rest => e.beforeFlatG && allBeforeFlatG rest
@@ -207,18 +267,78 @@ end
 
 def Src.beforeFlatG (s : Src) : Bool := allBeforeFlatG s.exprs
 
-/-! ### the container-only part of the fragment
+mutual
+/-- `beforeFlatB` without its clause for calls (the clause for parentheses kept):
+    `C18.cex_comment_touching_function` shows that the clause for calls is needed. -/
+def Expr.beforeFlatP : Expr → Bool
+  | .leaf .. => true
+  | .list v ml _ _ _ => (ml || allBeforeEmpty v) && allBeforeFlatP v
+  | .set v ml _ _ _ _ => (ml || allBeforeEmpty v) && allBeforeFlatP v
+  | .binding _ v _ _ _ => v.beforeFlatP
+  | .paren v lg _ _ _ _ _ => ((Layout.fromGap lg).onNewline || v.before.isEmpty) && v.beforeFlatP
+  | .app n x _ _ _ _ => n.beforeFlatP && x.beforeFlatP
+  | .wth env body _ _ _ _ _ => env.beforeFlatP && body.beforeFlatP
+  | .asrt .. => false     -- `assert`: outside the spacing theorem so far (`File.basic`)
+  | .sel e _ _ _ _ _ => e.beforeFlatP
+  | .selOr e _ _ _ d _ _ _ _ => e.beforeFlatP && d.beforeFlatP
+  | .lam _ _ _ _ body _ _ => body.beforeFlatP
+  | .un _ e _ _ _ _ => e.beforeFlatP
+  -- at most one blank line in front of / after a binary operator (`cex_blank_lines_around_operator`)
+  | .bin _ l r ogl rgl _ _ => decide (ogl ≤ 2) && decide (rgl ≤ 2) && l.beforeFlatP && r.beforeFlatP
+def allBeforeFlatP : List Expr → Bool
+  | [] => true
+  | e :: rest => e.beforeFlatP && allBeforeFlatP rest
+end
 
-The theorems of C18 (spacing normal form) and C06 (fixed point of comment-free files) are proved for
-the files without parentheses and function calls; C01 and C03 cover the whole fragment. -/
+def Src.beforeFlatP (s : Src) : Bool := allBeforeFlatP s.exprs
+
+mutual
+/-- `orderOk` without the condition on `assert` items (used to state that it is needed) -/
+def Cst.orderOkNA : Cst → Bool
+  | .leaf _ _ => true
+  | .list its _ => its.orderOkNA .list .none false false
+  | .set _ _ its _ => its.orderOkNA .set .none false false
+  | .paren its _ => its.orderOkNA .paren .none false false
+  | .app f cs _ a => f.orderOkNA && appOrderOk cs && a.orderOkNA
+  | .kw _ _ _ h _ _ _ _ b => h.orderOkNA && b.orderOkNA
+  | .sel e _ _ _ _ => e.orderOkNA
+  | .selOr e _ _ _ _ _ _ _ d => e.orderOkNA && d.orderOkNA
+  | .lam _ _ _ _ _ b => b.orderOkNA
+  | .un _ _ _ e => e.orderOkNA
+  | .bin l _ _ _ _ _ r => l.orderOkNA && r.orderOkNA
+def Items.orderOkNA : Items → Mode → Prev → Bool → Bool → Bool
+  | .nil, _, _, _, _ => true
+  | .cmt g _ rest, m, prev, pending, hasItem =>
+    let inl := prevAllowsInline m prev && !containsNL g && hasItem
+    if inl then !pending && rest.orderOkNA m .cmt pending hasItem
+    else rest.orderOkNA m .cmt true hasItem
+  | .elem _ c rest, m, _, _, _ => c.orderOkNA && rest.orderOkNA m .item false true
+  | .bind _ _ _ _ _ _ v _ _ rest, m, _, _, _ => v.orderOkNA && rest.orderOkNA m .item false true
+end
+
+def File.orderOkNA (f : File) : Bool := f.items.orderOkNA .file .none false false
+
+/-! ### the part of the fragment without `with` / `assert`
+
+The theorems of C18 (spacing normal form) and C02 are proved for the files without `assert` and with
+at most one blank line after the colon of a lambda (`File.basic`: containers, parentheses, calls,
+`with`, select, `or`, lambda, unary and binary operators); C06 (fixed point of comment-free files)
+for all of these (`Cst.cf`: no `assert`, no `-` fused with a path); C01 and C03 cover the whole fragment. -/
 
 mutual
 def Cst.basic : Cst → Bool
   | .leaf _ _ => true
   | .list its _ => its.basic
   | .set _ _ its _ => its.basic
-  | .paren .. => false
-  | .app .. => false
+  | .paren its _ => its.basic
+  | .app f _ _ a => f.basic && a.basic
+  | .kw w _ _ h _ _ _ _ b => w && h.basic && b.basic     -- `with`; not `assert`
+  | .sel e _ _ _ _ => e.basic
+  | .selOr e _ _ _ _ _ _ _ d => e.basic && d.basic
+  -- at most one blank line between the colon of a lambda and its body (`cex_blank_lines_after_colon`)
+  | .lam _ _ _ _ g2 b => decide (g2.count '\n' ≤ 2) && b.basic
+  | .un _ _ _ e => e.basic
+  | .bin l _ _ _ _ _ r => l.basic && r.basic
 def Items.basic : Items → Bool
   | .nil => true
   | .cmt _ _ rest => rest.basic
@@ -230,19 +350,63 @@ def File.basic (f : File) : Bool := f.items.basic
 
 /-! ### comment-free files: the tree of the output (`C06.frag_fixed_point_comment_free`) -/
 
+/-- the leftmost token of an expression when it is a leaf reached through calls, selects and binary
+    operators -/
+def Cst.headLeaf : Cst → Option (LeafKind × Text)
+  | .leaf k t => some (k, t)
+  | .app f _ _ _ => f.headLeaf
+  | .sel e _ _ _ _ => e.headLeaf
+  | .selOr e _ _ _ _ _ _ _ _ => e.headLeaf
+  | .bin l _ _ _ _ _ _ => l.headLeaf
+  | _ => none
+
+/-- a `-` written directly in front of the expression fuses with its first token into ONE path token
+    (`- ./p.nix` is rebuilt as `-./p.nix`: `C01.cex_unary_minus_path_fused`) -/
+def Cst.fusesMinus (e : Cst) : Bool :=
+  match e.headLeaf with
+  | some (.path, t) => t.head? != some '<'
+  | _ => false
+
 mutual
 def Cst.cf : Cst → Bool
   | .leaf _ _ => true
   | .list its _ => its.cf
   | .set _ _ its _ => its.cf
-  | .paren .. => false     -- the normaliser `Cst.norm` covers containers only so far (`File.basic`)
-  | .app .. => false
+  | .paren its _ => its.cf
+  | .app f cs _ a => f.cf && cs.isEmpty && a.cf
+  -- `with`; the normaliser `Cst.norm` does not cover `assert` yet
+  | .kw w c1 _ h c2 _ c3 _ b => w && c1.isEmpty && h.cf && c2.isEmpty && c3.isEmpty && b.cf
+  | .sel e c1 _ _ _ => e.cf && c1.isEmpty
+  | .selOr e c1 _ _ _ c2 _ _ d => e.cf && c1.isEmpty && c2.isEmpty && d.cf
+  | .lam _ c1 _ c2 _ b => c1.isEmpty && c2.isEmpty && b.cf
+  | .un op c _ e => c.isEmpty && e.cf && !(op == ['-'] && e.fusesMinus)
+  | .bin l c1 _ _ c2 _ r => l.cf && c1.isEmpty && c2.isEmpty && r.cf
 def Items.cf : Items → Bool
   | .nil => true
   | .cmt _ _ _ => false
   | .elem _ c rest => c.cf && rest.cf
   | .bind _ _ c1 _ c2 _ v c3 _ rest => c1.isEmpty && c2.isEmpty && c3.isEmpty && v.cf && rest.cf
 end
+
+/-- `Expr.absorbable` read off the tree -/
+def Cst.absorbableC : Cst → Bool
+  | .paren (.elem _ c .nil) _ => c.absorbableC
+  | .list .. => true
+  | .set .. => true
+  | _ => false
+
+/-- `Expr.sameOpChain` read off the tree -/
+def Cst.sameOpChainC : Cst → Text → Bool
+  | .bin _ _ g1 o _ _ _, op => o == op && g1.count '\n' != 0
+  | _, _ => false
+
+/-- `binRightIndent` read off the tree (comment-free: no leading comment on the right operand) -/
+def binRightIndentC (op : Text) (r : Cst) (i : Nat) : Nat :=
+  if chainable op then
+    if r.sameOpChainC op then i
+    else if r.absorbableC then i
+    else i + 2
+  else i
 
 /-- the extra line break a blank line in the gap leaves behind -/
 def blankGap (g : Text) : Text := if gapHasEmptyLineOffsets g then ['\n'] else []
@@ -266,8 +430,53 @@ def Cst.norm : Cst → Nat → Cst
     else if containsNL ((if r then rg else []) ++ its.flatten ++ cg) then
       .set r (if r then [' '] else []) (its.normML (i + 2)) (vgap cg i)
     else .set r (if r then [' '] else []) (its.normFlat (i + 2)) [' ']
-  | .paren its cg, _ => .paren its cg     -- not covered by the normaliser (`File.basic`)
-  | .app f cs g a, _ => .app f cs g a
+  -- `(` value `)`: the value stays on the line of `(` or goes on its own line at the indentation read
+  -- from the gap; `)` stays on the value's last line or goes on its own line at the current indentation
+  | .paren (.elem g c .nil) cg, i =>
+    .paren (.elem (if containsNL g then vgap g (indentFromGap g) else [])
+        (c.norm (if containsNL g then indentFromGap g else i)) .nil)
+      (if containsNL cg then vgap cg i else [])
+  | .paren its cg, _ => .paren its cg     -- (not a comment-free parenthesis)
+  -- function, one space or a line break (the argument then at the indentation read from the gap), argument
+  | .app f cs g a, i =>
+    .app (f.norm i) cs (if containsNL g then vgap g (indentFromGap g) else [' '])
+      (a.norm (if containsNL g then indentFromGap g else i))
+  -- `with`, one space or a line break (the environment then at the indentation read from the gap), environment,
+  -- `;` attached, then the body: on its own line at the current indentation (after one blank line if the source has
+  -- one around the `;`) when the source has a line break around the `;`; else after one space when it is a set /
+  -- list (or one in parentheses); else on its own line when it spans several lines; else after one space
+  | .kw true c1 g1 h c2 g2 c3 g3 b, i =>
+    .kw true c1 (if containsNL g1 then vgap g1 (indentFromGap g1) else [' '])
+      (h.norm (if containsNL g1 then indentFromGap g1 else i)) c2 [] c3
+      (if gapHasEmptyLine (g2 ++ ';' :: g3) then '\n' :: '\n' :: spaces i
+       else if containsNL (g2 ++ ';' :: g3) then '\n' :: spaces i
+       else if b.absorbableC then [' ']
+       else if containsNL (b.norm i).flatten then '\n' :: spaces i
+       else [' '])
+      (b.norm i)
+  | .kw false c1 g1 h c2 g2 c3 g3 b, _ => .kw false c1 g1 h c2 g2 c3 g3 b     -- `assert`: not covered by the normaliser
+  -- expression, nothing or a line break (at the indentation read from the gap), `.`, attrpath
+  | .sel e c1 g1 _ attrs, i =>
+    .sel (e.norm i) c1 (if containsNL g1 then vgap g1 (indentFromGap g1) else []) [] attrs
+  -- … one space or a line break (the default then at the indentation read from the gap), `or`, one space, default
+  | .selOr e c1 g1 _ attrs c2 g2 _ d, i =>
+    .selOr (e.norm i) c1 (if containsNL g1 then vgap g1 (indentFromGap g1) else []) [] attrs c2
+      (if containsNL g2 then vgap g2 (indentFromGap g2) else [' ']) [' ']
+      (d.norm (if containsNL g2 then indentFromGap g2 else i))
+  -- argument, nothing or a line break, `:`, one space or as many line breaks as the source has and the
+  -- current indentation, body
+  | .lam n c1 g1 c2 g2 b, i =>
+    .lam n c1 (if containsNL g1 then vgap g1 (indentFromGap g1) else []) c2
+      (if g2.count '\n' = 0 then [' '] else List.replicate (g2.count '\n') '\n' ++ spaces i) (b.norm i)
+  -- operator, nothing or a line break (the operand then at the indentation read from the gap), operand
+  | .un op c g e, i =>
+    .un op c (if containsNL g then vgap g (indentFromGap g) else []) (e.norm (if containsNL g then indentFromGap g else i))
+  -- left, one space or as many line breaks as the source has and the current indentation, operator, one space
+  -- or as many line breaks as the source has and the indentation of the right operand, right
+  | .bin l c1 g1 op c2 g2 r, i =>
+    .bin (l.norm i) c1 (if g1.count '\n' = 0 then [' '] else List.replicate (g1.count '\n') '\n' ++ spaces i) op c2
+      (if g2.count '\n' = 0 then [' '] else List.replicate (g2.count '\n') '\n' ++ spaces (binRightIndentC op r i))
+      (r.norm (if g2.count '\n' = 0 then i else binRightIndentC op r i))
 /-- items of a container that spans several lines, one per line at indentation `j` -/
 def Items.normML : Items → Nat → Items
   | .nil, _ => .nil
